@@ -10,7 +10,7 @@ from simkit.simfs import SimFS, patched
 from . import training_sim as ts
 
 ID = "C16"
-LEVEL = {"quick": "exploration", "thorough": "fault_enumeration"}
+LEVEL = {"quick": "fault_enumeration", "thorough": "fault_enumeration"}
 
 
 def fmt_has_epoch(fmt):
@@ -387,6 +387,15 @@ def execute(sc):
 # ---------------------------------------------------------------------------------------
 def generate(rng, tier, index):
     sc = ts.gen_training_scenario(rng, max_epochs=12, crash=True)
+    if rng.random() < 0.2:
+        # off-grid metrics that collapse onto each other at the history file's 5 significant
+        # digits (plateau near-ties). Decisions must then not depend on metrics at all, so both
+        # criteria are switched off; which epoch is "best" is still exercised.
+        sc["params"]["early_stopping_threshold"] = 0.0
+        sc["params"]["reduce_lr_threshold"] = 0.0
+        base = rng.choice([0.123456, 0.5, 1.25, 2.34565])
+        sc["metrics"] = [[base * (1 + rng.randrange(-4, 5) * 2e-6), base * (1 + rng.randrange(-4, 5) * 2e-6)] for _ in sc["metrics"]]
+        sc["offgrid"] = True
     sc["_plan"] = "enumerate" if (tier == "thorough" or index % 4 == 0) else "sample"
     sc["_plan_seed"] = rng.randrange(1 << 30)
     return sc
@@ -498,7 +507,7 @@ def sample_repr(sc):
     }
 
 
-BUDGET = {"quick": 700, "thorough": 6000}
+BUDGET = {"quick": 700, "thorough": 5000}
 WALL_CAP = {"quick": 240, "thorough": 3000}
 RULE = (
     "run i derives a base scenario (controller parameters, file-name formats, directory layout, metric history on the k/8 grid, "
